@@ -143,6 +143,7 @@ package log
 //@ pure SegHolds(x *segment, i uint64, b []byte) bool = x.prevIndex < i && i <= x.prevIndex + x.n && arrof(b) == arrof(x.file.Data) && base(b) == base(x.file.Data) + soff(x, i - x.prevIndex) && len(b) == soff(x, i - x.prevIndex + 1) - soff(x, i - x.prevIndex)
 
 //@ pure SN(x *segment) int = x.n
+//@ pure SArr(x *segment) int = arrof(x.file.Data)
 //@ pure SP(x *segment) uint64 = x.prevIndex
 //@ pure SSy(x *segment) int = x.synced
 // the list position and the content bounds of a segment are as at function entry
